@@ -98,6 +98,9 @@ class MacroVisitor(ExplorerScriptVisitor):
                     f(_("Label {label_id} does not exist in macro {name}, but a jump to it does (remove it)."))
                 )
         variables = self._root_handler.get_variables()
+        if len(set(variables)) != len(variables):
+            # With a name used twice the call's arguments can not be told apart (and one less would be accepted).
+            raise SsbCompilerError(f(_("The macro {name} uses the same name for more than one of its parameters.")))
 
         return ExplorerScriptMacro(name, variables, blueprints, self.source_map_builder.build())
 
